@@ -55,7 +55,7 @@ def main(tier, replay=None):
             sample = hist.get(min(hist), [])[:80] if hist else []
             for key, probe in sorted(PC.PROBES.items()):
                 if key in c.known or os.environ.get("VERIF_PROBE"):
-                    h2, m2, s2, exe = PC.run(c, "c10", max(60, n // 4), base + ["-probes", probe], probe)
+                    h2, m2, s2, exe = PC.run(c, "c10", max(40, n // 6), base + ["-probes", probe], probe)
                     stats_all.append(probe + ": " + s2)
                     nbad += PC.evaluate(c, h2, m2, "c10", probe, exe, base + ["-probes", probe], counters)
                     nhist += len(h2)
